@@ -131,9 +131,22 @@ Fixpoint implied (c : aexpr ann) (truth : bool) : list (ident * cls) :=
   end.
 
 (* ---------------------------------------------------------------- the checker *)
+(* the numbers a list of literal arguments denotes *)
+Fixpoint lit_nums (args : list (aexpr ann)) : option (list num) :=
+  match args with
+  | [] => Some []
+  | ANum _ v :: r => match lit_nums r with Some xs => Some (NF v :: xs) | None => None end
+  | ARat _ n d :: r =>
+      if d =? 0 then None
+      else match lit_nums r with Some xs => Some (num_of_frac n d :: xs) | None => None end
+  | _ => None
+  end.
+
 Section Checker.
 (* the class of a value of exact class `cl` after the rounding of context c *)
 Variable R : ctx -> cls -> cls.
+(* the context constructors of the number instance (n_ctor N) *)
+Variable nctor : ctor -> list num -> result ctx.
 
 Definition rnd (K : option ctx) (exact : cls) : cls :=
   match K with Some c => R c exact | None => c_top end.
@@ -200,9 +213,18 @@ Definition cbind (p : apat ann) (c : cls) (G : cenv) : option cenv :=
 Definition check_phis (G : cenv) (ph : phis ann) : bool :=
   forallb (fun xa => leq (cget G (fst xa)) (rep (snd xa))) ph.
 
-(* the context a `with` header denotes, when it is a constant *)
+(* the context a `with` header denotes, when it is a constant or a constructor
+   applied to literals *)
 Definition static_ctx (e : aexpr ann) : option ctx :=
-  match e with ACtxVal _ c => Some c | _ => None end.
+  match e with
+  | ACtxVal _ c => Some c
+  | ACtor _ k args =>
+      match lit_nums args with
+      | Some xs => match nctor k xs with Ok c => Some c | Err _ => None end
+      | None => None
+      end
+  | _ => None
+  end.
 
 Fixpoint check_stmt (G : cenv) (K : option ctx) (st : astmt ann) {struct st} : option cenv :=
   let check_block :=
